@@ -219,6 +219,17 @@ def _r1(ctx, pkg):
                 continue            # judged as part of each caller (the step is expanded there)
             n += 1
             judged.add(mname)
+            if missing:
+                # the network itself (or one of the cached sets) is handed to code that is not read here -- a module-level function, a
+                # helper of the class that was not put back in place: whether the update happens there is not known (never a verdict)
+                handed = [c for c in ast.walk(efn) if isinstance(c, ast.Call) and not (isinstance(c.func, ast.Attribute) and c.func.attr in ADDERS)
+                          and (any(isinstance(a, ast.Name) and a.id == "self" for a in list(c.args) + [k.value for k in c.keywords])
+                               or any(isinstance(a, ast.Attribute) and isinstance(a.value, ast.Name) and a.value.id == "self" and a.attr in CACHES for a in list(c.args) + [k.value for k in c.keywords])
+                               or (isinstance(c.func, ast.Attribute) and isinstance(c.func.value, ast.Name) and c.func.value.id == "self" and pkg.resolve("Network", c.func.attr)[1] is not None
+                                   and any(a in _self_writes(pkg.resolve("Network", c.func.attr)[1]) for a in CACHES)))]
+                if handed:
+                    ctx.unrec("R1", key, (NF, m.line), f"self.reaction_list is changed here ({kind}); {missing} may be updated by `{ast.unparse(handed[0])[:60]}`, which this rule does not read")
+                    continue
             ctx.check(not missing, "R1", key, (NF, m.line),
                       "the cached species sets are updated on this path" if not missing else
                       f"self.reaction_list is changed here ({kind}) but {missing} are neither updated nor rebuilt on this path: "
@@ -308,6 +319,15 @@ def _r2(ctx, pkg):
         if mentions and not quantified:
             ctx.unrec("R2", "_add_reaction:filter dominates append", (NF, a.line), f"the test of the allowed list that guards the append is not understood: {detail[:200]}")
             return
+        if not mentions and not quantified:
+            # nothing about the allowed list on the way to the append.  If another method of the class tests the list (the filter was
+            # moved to a caller / a wrapper), where reactions are rejected is not read here; if NOBODY reads it, the filter is gone
+            elsewhere = [mn for mn, mf in pkg.cls("Network").methods.items() if not mn.startswith("allowed_species") and mn != "_add_reaction"
+                         and any(isinstance(x, ast.Attribute) and x.attr in ("_allowed_species", "allowed_species") and isinstance(x.ctx, ast.Load) for x in ast.walk(mf))
+                         and mn not in ("__init__",)]
+            if elsewhere:
+                ctx.unrec("R2", "_add_reaction:filter dominates append", (NF, a.line), f"_add_reaction appends without testing the allowed list, which {elsewhere[:3]} read: where reactions are rejected is not understood")
+                return
     ctx.check(dominated, "R2", "_add_reaction:filter dominates append", (NF, a.line),
               "a reaction is appended only if the allowed list is empty or all of its reactants and products are in it (Species membership)" if dominated else
               "the append is not dominated by `all(rp in self._allowed_species for rp in reactants + products)`: a reaction mentioning a disallowed species "
@@ -315,8 +335,15 @@ def _r2(ctx, pkg):
               expected="if self._allowed_species and not all([rp in self._allowed_species for rp in reaction.reactants + reaction.products]): skip", found=detail[:300])
     ok_skip = len(skip) == 1 and skipped[0][1] == reac and \
         bool(tests) and not guards_satisfiable(skip[0].guards, [(tests[0], all_test(tests[0]) > 0)]) and guards_satisfiable(skip[0].guards, [(ALLOWED, True), (tests[0], all_test(tests[0]) < 0)])
-    ctx.check(ok_skip, "R2", "_add_reaction:rejected are remembered", (NF, skip[0].line if skip else fn.lineno),
-              "a rejected reaction is recorded in _skipped_reactions (so a later change of the allowed list can re-admit it)")
+    # understood: one append of the reaction itself (judged by the path it sits on), or no trace of _skipped_reactions in the method at
+    # all (rejected reactions are forgotten).  Several appends, another value, the list written in another way: not understood.
+    touched = [n_ for n_ in ast.walk(fn) if isinstance(n_, ast.Attribute) and n_.attr == "_skipped_reactions"]
+    if not ok_skip and (not tests or len(skip) > 1 or (len(skip) == 1 and skipped[0][1] != reac) or (not skip and touched)):
+        ctx.unrec("R2", "_add_reaction:rejected are remembered", (NF, skip[0].line if skip else fn.lineno),
+                  f"how rejected reactions are recorded is not understood ({len(skip)} appends to _skipped_reactions, {len(touched)} mentions)")
+    else:
+        ctx.check(ok_skip, "R2", "_add_reaction:rejected are remembered", (NF, skip[0].line if skip else fn.lineno),
+                  "a rejected reaction is recorded in _skipped_reactions (so a later change of the allowed list can re-admit it)")
     # cache updates use the appended reaction: self._reactants.update(X) / self._reactants |= X / self._reactants = self._reactants | X
     cal = {name: c for c in CACHES for name in _aliases(fl, ("attr", SELF, c))}
     ups = [(f, g) for f in fl.facts for g in [_cache_growth(f, cal)] if g is not None]
@@ -333,6 +360,8 @@ def _r2(ctx, pkg):
               (f.kind in ("append", "mutate", "remove", "store") and f.target in cal))]
     if not good and other:
         ctx.unrec("R2", "_add_reaction:cache update", (NF, other[0].line), f"the cached sets are maintained in a way that is not understood ({other[0].kind} {other[0].target})")
+    elif not good and not ups and any(isinstance(c, ast.Call) and any(isinstance(a_, ast.Name) and a_.id == "self" for a_ in c.args) for c in ast.walk(fn)):
+        ctx.unrec("R2", "_add_reaction:cache update", (NF, fn.lineno), "no update of the cached sets in _add_reaction, and the network is handed to code this rule does not read")
     else:
         ctx.check(good, "R2", "_add_reaction:cache update", (NF, ups[0][0].line if ups else fn.lineno), "_reactants/_products receive the species of exactly the appended reaction, on the same path")
     # setter
